@@ -193,10 +193,13 @@ Fixpoint split_eq (l : list node) : option (list node * list node) :=
               else match split_eq r with Some (a, b) => Some (x :: a, b) | None => None end
   end.
 
-(* evaluate.equal_split: node.index(eqmark) on tuples and tuple subclasses *)
+(* evaluate.equal_split: node.index(eqmark) on a plain tuple of children only.  FIXED behaviour of
+   fixes/C04-equal-split-single-node-argument.diff: the unfixed code also searched the children of a single IfNode / IfEqNode /
+   Variable argument (tuple subclasses), so that {{t|{{#if:1|=|x}}}} bound 1 = "x"; with the patch an argument that is one
+   node has no top-level '='.  The two agree unless a whole argument is one #if/#ifeq with a branch that is exactly "=". *)
 Definition equal_split (n : node) : option node * node :=
   match n with
-  | NSeq l | NIf l | NIfEq l | NVar l =>
+  | NSeq l =>
       match split_eq l with Some (a, b) => (Some (NSeq a), NSeq b) | None => (None, n) end
   | _ => (None, n)
   end.
